@@ -131,10 +131,66 @@ def run_scenario(ctx, rng, plans, fan, nev, spied, instrumented, check=None, ext
       ctx.count('zombie_threads', z)
 
 
+def directed_case(ctx, n):
+  """DIRECTED schedules for windows that are too narrow for sampling (regression witnesses): two posters and the consumer are
+  steered through a fixed sequence of waypoints (vt/detsched.py policy 'directed'), then everything runs to quiescence.
+  Witness 1 ('top-up test split by the consumer'): both posters have put their wake-up token and the consumer has spent
+  both on an empty queue; poster 1 finishes; poster 2 inserts its event and is in the middle of its top-up test when the
+  consumer takes the last token and the first event: poster 2 must still leave a token for its own event"""
+  import linecache
+  rng = ctx.rng('directed', n)
+  kinds = [rng.choice(['fifo', 'lifo']), rng.choice(['fifo', 'lifo'])]
+  s = ds.Sched(seed=1, policy='directed', max_steps=400000)
+  hist = aosim.History()
+  aosim.install(s)
+  try:
+    ao = aosim.make_ao(hist, instrumented=rng.random() < 0.5)
+    st = aosim.make_state(hist, {}, rng.random() < 0.5)
+    src = lambda loc: linecache.getline(AO.__file__, loc[1]) if isinstance(loc, tuple) and isinstance(loc[1], int) else ''
+    poster = lambda k: (lambda t: t.role == 'poster' and t.pyname is not None and [x for x in s.threads if x.role == 'poster'].index(t) == k)
+    consumer = lambda t: t.role == 'run_event'
+    # "the token is in, the event is not": the poster is about to execute the first statement after its token put
+    token_in = lambda loc: isinstance(loc, tuple) and loc[0] in ('append', 'appendleft') and ('self.deque.appendleft(item)' in src(loc) or 'if len(self.deque) == self.deque.maxlen' in src(loc))
+    reading_tokens = lambda loc: loc == 'Queue.qsize:returned'
+    s.waypoints = [(poster(0), token_in), (consumer, 'blocked'), (poster(1), token_in), (consumer, 'blocked'), (poster(0), 'finished'),
+                   (poster(1), reading_tokens), (consumer, 'blocked'), (poster(1), 'finished')]
+    wit = {'directed': 'top-up test split by the consumer', 'kinds': kinds}
+    try:
+      ao.start_at(st)
+      s.quiesce()
+      ths = [ds.SThread(target=aosim.poster, args=(ao, hist, 'p%d' % i, [(kinds[i], i + 1)])) for i in range(2)]
+      for t in ths:
+        t.start()
+      for t in ths:
+        t.join()
+      s.quiesce()
+    except ds.Verdict as v:
+      ctx.violation('C05/%s' % v.kind, 'directed schedule ended in %s: %r' % (v.kind, (v.info or {}).get('blocked')), wit)
+      return
+    ctx.count('directed_schedules_run')
+    if s.wp_i == len(s.waypoints):
+      ctx.count('directed_schedules_followed_to_the_end')
+    ctx.distinct(('directed', tuple(kinds), s.wp_i))
+    exc = [(t.name, t.role, repr(t.exc)) for t in s.threads if t.exc is not None]
+    left, tokens = len(ao.locking_deque.deque), ds._q.Queue.qsize(ao.locking_deque.locking_queue)
+    wit.update(waypoints_reached=s.wp_i, of=len(s.waypoints), dispatched=[d['uid'] for d in hist.dispatch], switch_trail_tail=s.trail[-30:])
+    if exc:
+      ctx.violation('C05/exception-in-thread', 'directed schedule: a thread died: %r' % exc, wit)
+    elif left:
+      ctx.violation('C05/quiescent-with-events-left', 'directed schedule (%s): both posters have finished and no thread can run, but %d event(s) are still queued with %d wake-up token(s): a lost wake-up - the consumer sleeps on a non-empty queue' % (
+        wit['directed'], left, tokens), wit)
+  finally:
+    z = ds.uninstall()
+    if z:
+      ctx.count('zombie_threads', z)
+
+
 SYS = {'quick': (2, 1, 2000, 45.0), 'thorough': (32, 1, 100000, 150.0)}     # systematic cases, deviation bound, schedule cap, seconds cap (per scenario)
 
 
 def run_case(ctx, n):
+  if n % 50 == 49:
+    return directed_case(ctx, n)
   sysx.run_case(ctx, n, SYS, scenario)
 
 
